@@ -23,7 +23,9 @@ MODS = {
     'deps': 'src/deps.rs',
     'builder': 'src/builder.rs',
     'cycles': 'src/cycles.rs',
+    'log': 'src/bin/redo/log.rs',
 }
+BIN_MODS = {'log'}
 
 
 class Replayer:
@@ -62,7 +64,7 @@ class Replayer:
                       'RUST_BACKTRACE': '0'})
             if env:
                 e.update(env)
-            cmd = ['cargo', 'test', '--offline', '--lib']
+            cmd = ['cargo', 'test', '--offline'] + (['--bin', 'redo'] if mod in BIN_MODS else ['--lib'])
             if release:
                 cmd.append('--release')
             cmd += ['%s::verif_replay::%s' % (mod, test), '--', '--exact', '--nocapture', '--test-threads', '1']
